@@ -307,6 +307,21 @@ def check_c18(opts):
                     fails.append(f)
                     if len(fails) > 8: break
             if len(fails) > 8: break
+    # "byte for byte": every single character (all code points below U+3000 but the line terminator, plus a few from the far planes)
+    # inside and alone in a string field -- a placeholder / sentinel used by an escaping step shows up here whatever character it is
+    cps = [c for c in range(0, 0x3000) if c != 0x0A] + [0xD7FF, 0xE000, 0xFEFF, 0xFFFD, 0xFFFE, 0xFFFF, 0x10000, 0x1F600, 0x10FFFF]
+    step = 4 if tier == 'quick' else 1
+    chars = [chr(c) for i, c in enumerate(cps) if c < 0x100 or i % step == (opts.get('seed', 0) % step)] if step > 1 else [chr(c) for c in cps]
+    for sep, esc in ((',', '\\'), (';', '^')):
+        for b in range(0, len(chars), 512):
+            rows = [('k' + ch + 'v', ch) for ch in chars[b:b + 512]]
+            got = roundtrip(rows, [('a', 'str'), ('b', 'str')], sep, esc)
+            evals += len(rows)
+            if got != rows:
+                bad = next((r for r in rows if roundtrip([r], [('a', 'str'), ('b', 'str')], sep, esc) != [r]), rows[0])
+                fails.append({'separator': sep, 'escapechar': esc, 'row': [repr(x) for x in bad], 'expected': str([bad]),
+                              'got': str(roundtrip([bad], [('a', 'str'), ('b', 'str')], sep, esc))[:200], 'scenario': 'single unusual character in a string field'})
+                break
     # a non-default escape character, matching on both sides: all strings of length <= 3 (4) over {sep, quote, escape, a, backslash}
     for sep, esc in ((',', '^'), (';', '^'), (',', '~')):
         alpha = [sep, '"', esc, 'a', '\\']
@@ -412,7 +427,7 @@ def check_c18(opts):
                               'got': f'closed: {bool(closed)}, content {got!r}', 'events': str(ev)[:120]})
     finally:
         import shutil; shutil.rmtree(d, ignore_errors=True)
-    return result('e2e.C18.csv', 'escape characters ^ and ~ (strings over {sep, quote, escape, a, backslash}); files of 0 / 1 / 4000 (20000) rows of multi-byte text through dump_to_file / load_from_file '
+    return result('e2e.C18.csv', 'every single character below U+3000 except the line terminator (quick: all below U+0100, every 4th above) plus 9 far-plane code points, inside and alone in a string field, separators , and ; with escape \\ and ^; escape characters ^ and ~ (strings over {sep, quote, escape, a, backslash}); files of 0 / 1 / 4000 (20000) rows of multi-byte text through dump_to_file / load_from_file '
                   '(> 64 KiB read chunks, encoding None / utf-8 / utf-16 / utf-32 / utf-8-sig: one byte-order mark per file); the same dump pipeline subscribed twice; dump_to_file as a tee_map branch (synchronous source, cut by first()); floats: 13 special + 600 (10000) seeded; ints incl. > 64 bit; strings: length <= 3 (4) over {sep, quote, escape, a, space} in 1-2 columns x 5 separators; text re-chunked in two',
                   evals, evals, fails, False, t0)
 
